@@ -830,6 +830,15 @@ func (e *Exec) blockFrom(s *State, b *ssa.BasicBlock, from int, depth int) {
 			return
 		case *ssa.If:
 			c := e.sc(s, x.Cond)
+			// a condition that constant-folds (e.g. `recover() != nil` on a path without a panic) decides the branch here
+			// instead of dragging an infeasible path to the end of the function
+			if c != "true" && c != "false" && len(c) < 400 {
+				if triviallyValid(c) {
+					c = "true"
+				} else if triviallyValid("(not " + c + ")") {
+					c = "false"
+				}
+			}
 			pos := e.posStr(token.NoPos)
 			if c != "false" {
 				t := s.clone()
